@@ -553,7 +553,12 @@ def dealloc (handles : Bool) (lvl : Nat) : Ty → List Expr → G (List Stmt)
       let b0 ← deallocArm handles lvl a (params.drop 1) (xs.drop 1)
       let b1 ← deallocArm handles lvl b (params.drop 1) (xs.drop 1)
       pure [.eff (.deallocVariant 2) [hd xs] [(b0, []), (b1, [])]]
-  | .flist _ _, _ => throw .todo
+  | .flist e n, xs => do
+      -- `flat_for_each_record_type(ty, repeat_n(element, size), deallocate)`
+      let _ ← flatU (.flist e n)
+      let k := (← flatU e).length
+      let ss ← (chunks xs (List.replicate n k)).mapM (dealloc handles lvl e)
+      pure ss.flatten
 
 def deallocFields (handles : Bool) (lvl : Nat) : List Ty → List Expr → G (List Stmt)
   | [], _ => pure []
